@@ -311,6 +311,73 @@ def make_harness(K: int, first_ops: list[str], digest_sizes: list[int], max_hand
     return harness
 
 
+# (class, arguments of the first creation, arguments of the second creation): the two differ at
+# most in state that is neither comparable content nor origin nor a direct child
+_SAME_PREIMAGE = [
+    ("VLeaf", {"v": 1}, {"v": 1}),
+    ("VNonCmp", {"v": 1, "note": "first"}, {"v": 1, "note": "second"}),
+    ("VNonInit", {"v": 1}, {"v": 1}),
+    ("VStamp", {"v": 1}, {"v": 1}),
+    ("VTyped", {"i": 1, "nc": 1}, {"i": 1, "nc": 2}),
+    ("VSlot", {"v": 1}, {"v": 1}),
+    ("VRich", {}, {}),
+    ("VFalsy", {}, {}),
+]
+
+
+def determinism_harness(e):
+    """The id clause on every kind of field declaration: a node re-created while its predecessor
+    is no longer registered gets the same id, whatever the non-comparable state."""
+    from models.zoo import CLASSES, origin
+    from pyoak import config
+    from pyoak.node import NODE_REGISTRY
+
+    size = e.pick([1, 8], "digest_size")
+    reset_all()
+    config.ID_DIGEST_SIZE = size
+    cname, kw1, kw2 = e.pick(_SAME_PREIMAGE, "class")
+    cls = CLASSES[cname]
+    okey = e.pick([None, "a", "xml"], "origin")
+    with_kid = "kid" in {f.name for f in dataclasses.fields(cls)} and e.flag("with_child")
+    kid = VLeaf(v=5) if with_kid else None
+
+    def make(kw):
+        kw = dict(kw)
+        if okey is not None:
+            kw["origin"] = origin(okey)
+        if kid is not None:
+            kw["kid"] = kid
+        return cls(**kw)
+
+    first = make(kw1)
+    id1 = first.id
+    how = e.pick(["detach_self", "dropped", "replace-same-content", "dataclasses.replace-after-detach", "duplicate-after-detach"], "predecessor")
+    scenario = {"class": cname, "digest_size": size, "origin": okey, "with_child": bool(with_kid), "predecessor": how, "first": repr(kw1), "second": repr(kw2)}
+    if how == "detach_self":
+        first.detach_self()
+        second = make(kw2)
+    elif how == "dropped":
+        first = None
+        second = make(kw2)
+    elif how == "replace-same-content":
+        second = first.replace(**{k: v for k, v in kw2.items()})
+    elif how == "dataclasses.replace-after-detach":
+        first.detach_self()
+        second = dataclasses.replace(first, **kw2)
+    else:
+        first.detach_self()
+        second = first.duplicate()
+        if kid is not None and NODE_REGISTRY.get(kid.id) is not kid:
+            e.assume(False)
+    scenario.update(first_id=id1, second_id=second.id)
+    if second.id != id1:
+        e.fail("id-not-deterministic:" + cname, scenario=scenario)
+    if NODE_REGISTRY.get(second.id) is not second:
+        e.fail("live-node-not-returned", scenario=scenario)
+    e.distinct((size, cname, okey, bool(with_kid), how))
+    return scenario
+
+
 CREATE = ["leaf", "parent", "duplicate", "dc_replace", "roundtrip", "roundtrip_after_detach"]
 
 
@@ -332,6 +399,7 @@ def spec(tier: str, seed: int) -> Spec:
                         forced[2] = third
                     name = f"K{K}{'r' if restrict else ''}-size{size}-{second}" + (f"-{third}" if third else "")
                     fams.append(Family(name, make_harness(K, ["leaf"], [size], forced=forced, restrict=restrict), variables=var))
+    fams.append(Family("id-determinism-per-field-kind", determinism_harness, variables="selectors: class (non-comparable / non-init / both / slotted / falsy ...), digest size, origin, child, how the predecessor left the registry"))
     Kmax = plan[-1][0]
     return Spec(
         families=fams,
